@@ -182,6 +182,7 @@ type tsFunc struct {
 	rootStores []*ssa.Store           // stores to <handle>.root in this function
 	exitRoots  map[string]string      // object key that is a handle's root when the function returns -> root(<handle>) key
 	takeover   map[string]string      // new root object -> old root key whose register it takes over
+	inlInit    map[string][]ssa.Value // object -> values its inlined flag was initialised from
 	idOf       map[string][]ssa.Value // object -> id values it was retrieved by
 }
 
